@@ -101,6 +101,97 @@ func ParseWire(writes [][]byte) ([]*ref.Frame, string) {
 	return out, ""
 }
 
+// ParseConn is ParseWire for a fake connection: when the connection has been closed, the output
+// may end inside a frame (a frame that reaches the transport in several Write calls is cut
+// short by the close); everything before must be whole frames.
+func ParseConn(c *vnet.FakeConn) ([]*ref.Frame, string) {
+	if !c.IsClosed() {
+		return ParseWire(c.Written)
+	}
+	all := Concat(c.Written)
+	var out []*ref.Frame
+	items := ref.ParseStream(all)
+	for i, it := range items {
+		if it.Kind == ref.KindTruncated && i == len(items)-1 {
+			break
+		}
+		if it.Kind != ref.KindFrame {
+			return out, fmt.Sprintf("transport output is not a sequence of whole frames: at offset %d: % x", it.Start, all[it.Start:minInt(len(all), it.Start+40)])
+		}
+		out = append(out, it.Frame)
+	}
+	return out, ""
+}
+
+// ScanWire is the tolerant reader used where the scenario itself damages the output (a Write
+// call that fails or blocks may leave a fragment of a frame on the wire): at every offset it
+// tries a structurally complete frame whose checksum is right for the dialect (or, without a
+// dialect entry, for no CRC_EXTRA check at all when anyID is set); anything else is skipped one
+// byte at a time. Returns the frames and the number of skipped bytes.
+func ScanWire(all []byte, anyID bool) ([]*ref.Frame, int) {
+	var out []*ref.Frame
+	skipped := 0
+	for pos := 0; pos < len(all); {
+		it, _ := ref.ParseOne(all[pos:])
+		if it.Kind == ref.KindFrame {
+			d := DefByID(it.Frame.ID)
+			if (d != nil && it.Frame.ComputeChecksum(d.CRCExtra()) == it.Frame.Checksum) || (d == nil && anyID) {
+				out = append(out, it.Frame)
+				pos += it.End
+				continue
+			}
+		}
+		pos++
+		skipped++
+	}
+	return out, skipped
+}
+
+// Concat joins the accepted writes of a transport.
+func Concat(writes [][]byte) []byte {
+	var all []byte
+	for _, w := range writes {
+		all = append(all, w...)
+	}
+	return all
+}
+
+// WireTimed parses everything a fake connection accepted as one byte stream (a frame may
+// reach the transport in any number of Write calls) and gives every frame the virtual time of
+// the Write call that carried its first byte.
+func WireTimed(c *vnet.FakeConn) ([]time.Duration, []*ref.Frame, string) {
+	var all []byte
+	var startOff []int
+	var startAt []time.Duration
+	off := 0
+	for _, io := range c.IO {
+		if io.Write && io.Done {
+			startOff = append(startOff, off)
+			startAt = append(startAt, io.At.Sub(vmc.Epoch))
+			off += io.N
+		}
+	}
+	for _, w := range c.Written {
+		all = append(all, w...)
+	}
+	var out []*ref.Frame
+	var ts []time.Duration
+	for _, it := range ref.ParseStream(all) {
+		if it.Kind != ref.KindFrame {
+			return ts, out, fmt.Sprintf("transport output is not a sequence of whole frames: at offset %d: % x", it.Start, all[it.Start:minInt(len(all), it.Start+40)])
+		}
+		out = append(out, it.Frame)
+		at := time.Duration(-1)
+		for i, o := range startOff {
+			if o <= it.Start {
+				at = startAt[i]
+			}
+		}
+		ts = append(ts, at)
+	}
+	return ts, out, ""
+}
+
 func minInt(a, b int) int {
 	if a < b {
 		return a
@@ -111,8 +202,13 @@ func minInt(a, b int) int {
 // CheckOriginated verifies frames originated by the node on one link: identity, version,
 // flags, checksum, gapless sequence numbers, signature (C09 / C06 node clauses). Frames whose
 // (sys,comp) differ from the node's are forwarded frames and are skipped.
-func CheckOriginated(frames []*ref.Frame, sys, comp byte, v2 bool, key []byte, linkID byte) string {
+//
+// The link id is whatever the channel chose when it was set up (the statement does not say
+// how): the oracle requires one constant value on all signed frames of the link; the linkID
+// argument is no longer compared.
+func CheckOriginated(frames []*ref.Frame, sys, comp byte, v2 bool, key []byte, _ byte) string {
 	seq := 0
+	linkSeen, linkID := false, byte(0)
 	for i, f := range frames {
 		if f.Sys != sys || f.Comp != comp {
 			continue
@@ -138,8 +234,11 @@ func CheckOriginated(frames []*ref.Frame, sys, comp byte, v2 bool, key []byte, l
 			if !f.Signed() || f.Incompat != 1 {
 				return fmt.Sprintf("frame %d of a node with OutKey is not signed", i)
 			}
+			if !linkSeen {
+				linkSeen, linkID = true, f.LinkID
+			}
 			if f.LinkID != linkID {
-				return fmt.Sprintf("frame %d: link id %d, the channel's is %d", i, f.LinkID, linkID)
+				return fmt.Sprintf("frame %d: link id %d, earlier frames of this link carry %d", i, f.LinkID, linkID)
 			}
 			if f.Sign(key) != f.Sig {
 				return fmt.Sprintf("frame %d: signature does not verify under OutKey", i)
